@@ -67,13 +67,11 @@ Qed.
 
 (* the (operation, path) pairs that are recorded findings (known_findings/C32.json), by shape *)
 Definition known_bad (o : op) (p : path) : bool :=
-  match o, p_term p with
-  | Op_SetInstance_is_empty, TDb => true            (* no liveness guard before database._exec_sql *)
-  | Op_SetInstance_create, TDb => true              (* reaches Entity.__init__ / _get_cache without the guard *)
-  | Op_Entity_flush, TAssert => true                (* liveness is only asserted *)
-  | Op_tracked_method_new_func, _ => has_write (p_pre p)   (* the in-place change is applied before _attr_changed_'s guard *)
-  | _, _ => false
+  match o with
+  | Op_tracked_method_new_func => has_write (p_pre p)   (* the in-place change is applied before _attr_changed_'s guard *)
+  | _ => false
   end.
+(* SetInstance.is_empty / create and Entity.flush were in this list until /repo 743d82e gave them the liveness guard *)
 
 Definition row_ok (r : op * list path) : bool :=
   forallb (fun p => known_bad (fst r) p || path_guarded p) (snd r).
@@ -98,7 +96,7 @@ Qed.
 Definition strictly_guarded (o : op) : bool :=
   match o with
   | Op_Attribute_load | Op_Attribute_dunder_set | Op_Set_load | Op_SetInstance_add | Op_SetInstance_dunder_iadd
-  | Op_SetInstance_remove | Op_SetInstance_dunder_isub | Op_SetInstance_clear | Op_SetInstance_load
+  | Op_SetInstance_remove | Op_SetInstance_dunder_isub | Op_SetInstance_clear | Op_SetInstance_load | Op_SetInstance_create
   | Op_Entity_load | Op_Entity_load_internal | Op_Entity_attr_changed_internal | Op_Entity_delete | Op_Entity_set => true
   | _ => false
   end.
@@ -124,29 +122,32 @@ Qed.
 
 (* ---------------------------------------------------------------- refutations (the recorded findings) *)
 
-Definition st_new_session := mkd false false true.
-Definition st_outside := mkd false false false.
+(* the operations repaired by /repo 743d82e: no exception left, on any path, in any state *)
+Definition repaired (o : op) : bool :=
+  match o with Op_SetInstance_is_empty | Op_SetInstance_create | Op_Entity_flush => true | _ => false end.
 
-Lemma is_empty_refuted :
-  exists ps p, In (Op_SetInstance_is_empty, ps) guard_table /\ In p ps /\
-    In (ORanQuery, true) (run st_new_session p) /\ In (OTxError, false) (run st_outside p).
+Lemma repaired_guarded : forall o ps p st ow,
+  In (o, ps) guard_table -> repaired o = true -> In p ps -> In ow (run st p) ->
+  snd ow = false /\
+  (touches_session p = true -> refused st (fst ow)) /\
+  (touches_session p = false -> harmless st (fst ow)).
 Proof.
-  eexists; exists (mkpath [DelCheck; VGuard] TDb). split; [cbn; tauto|]. cbn. tauto.
+  intros o ps p st ow Hrow Hr Hp Hin. eapply guarded_except_known; eauto.
+  destruct o; try discriminate Hr; reflexivity.
 Qed.
 
-Lemma create_refuted :
-  exists ps p, In (Op_SetInstance_create, ps) guard_table /\ In p ps /\
-    In (OTxError, false) (run st_outside p) /\ ~ In (OSessionOver, false) (run st_outside p).
-Proof.
-  eexists; exists (mkpath [] TDb). split; [cbn; tauto|]. cbn. split; [tauto|]. split; [tauto|].
-  intros [H|[]]; discriminate.
-Qed.
+Lemma repaired_present : forall o, repaired o = true -> exists ps, In (o, ps) guard_table /\ ps <> [].
+Proof. intros o H. destruct o; try discriminate H; eexists; (split; [cbn; tauto | discriminate]). Qed.
 
-Lemma flush_refuted :
-  exists ps p, In (Op_Entity_flush, ps) guard_table /\ In p ps /\ forall st, run st p = [(OAssertion, false)].
-Proof.
-  eexists; exists (mkpath [] TAssert). split; [cbn; tauto|]. cbn. split; [tauto|]. reflexivity.
-Qed.
+(* in particular: the database path of is_empty and the saving path of flush now end in the guard *)
+Lemma is_empty_db_path_guarded :
+  exists ps, In (Op_SetInstance_is_empty, ps) guard_table /\ In (mkpath [DelCheck; VGuard] TGuard) ps /\
+             forallb (fun p => match p_term p with TDb | TAssert => false | _ => true end) ps = true.
+Proof. eexists. split; [cbn; tauto|]. split; [cbn; tauto | reflexivity]. Qed.
+
+Lemma flush_paths :
+  exists ps, In (Op_Entity_flush, ps) guard_table /\ ps = [mkpath [] TReturn; mkpath [] TGuard].
+Proof. eexists. split; [cbn; tauto | reflexivity]. Qed.
 
 Lemma tracked_refuted :
   exists ps p, In (Op_tracked_method_new_func, ps) guard_table /\ In p ps /\ forall st, run st p = [(OSessionOver, true)].
